@@ -283,7 +283,7 @@ func (w *mworld) attempt(mc mcase, first string) bool {
 
 // mutationPart: chain f (one per form): every attempt of the form first on a fresh /p/ instance; chains "fwd"/"rev":
 // all 80 attempts in sequence on one instance, in both orders.
-func mutationPart() {
+func mutationJobs() []func() {
 	var cases []mcase
 	for _, f := range forms {
 		for i, a := range attempts {
@@ -299,7 +299,7 @@ func mutationPart() {
 		nChains.Add(1)
 		return &mworld{c: c}
 	}
-	r.ParFor(len(forms)+3, func(i int) {
+	body := func(i int) {
 		w := nw()
 		if i == len(forms)+2 {
 			escalation(w)
@@ -330,7 +330,19 @@ func mutationPart() {
 				return
 			}
 		}
-	})
+	}
+	// the two long sequences first
+	order := []int{len(forms), len(forms) + 1}
+	for i := 0; i < len(forms)+3; i++ {
+		if i != len(forms) && i != len(forms)+1 {
+			order = append(order, i)
+		}
+	}
+	var jobs []func()
+	for _, i := range order {
+		jobs = append(jobs, func() { body(i) })
+	}
+	return jobs
 }
 
 // escalation: does the transient /p/ mutation matter? A victim realm guards a state-changing function with a
